@@ -40,7 +40,8 @@ def doc_maker(g, what, n):
     """One to three lines; sometimes a second paragraph (summaries then end in a 'Read more' link to the full text)."""
     lines = [" " + " ".join(f"zq{n}x{i}w{j}" for j in range(g.ch.count(1, 3))) for i in range(g.ch.count(1, 2))]
     if g.ch.bool(1, 3):
-        lines += ["", f" zq{n}x8w0 second paragraph" + (" [home](|url|)" if g.ch.bool(1, 4) else "")]
+        lines += ["", f" zq{n}x8w0 second paragraph" + (" [home](|url|)" if g.ch.bool(1, 4) else "") +
+                  (' <a href="|url|/index.html">raw front</a>' if g.ch.bool(1, 4) else "")]
     g.entity_docs[n] = what
     return lines
 
@@ -103,7 +104,8 @@ def gen_options(ch, excl=()):
 def gen_pages(ch):
     """A small static page tree (C17 explores these in depth)."""
     pages = {"pages/index.md": "---\ntitle: Notes\n---\n\nTop page zq0x2w0. See [other](other.html).\n",
-             "pages/other.md": "---\ntitle: Other\n---\n\nOther page. Back to [top](index.html) or [home](|url|/index.html) or [site](|url|).\n"}
+             "pages/other.md": "---\ntitle: Other\n---\n\nOther page. Back to [top](index.html) or [home](|url|/index.html) or [site](|url|).\n\n"
+                               "<p>Raw HTML: <a href=\"|page|/index.html\">page root</a> and <a class='x' href='|url|/index.html'>front</a>.</p>\n"}
     if ch.bool():
         pages["pages/index.md"] += "And [sub](sub/index.html).\n"
         pages["pages/sub/index.md"] = "---\ntitle: Sub\n---\n\nSub page; up to [top](../index.html).\n"
